@@ -334,7 +334,7 @@ fn judge(cfg: &Cfg, lines: &[&[u8]], obs: &[StepObs], replay: &Value) -> Judgeme
         };
         let mut viol: Option<Violation> = None;
         let mut next_live = false;
-        let mut after_key = String::new();
+        let after_key: String;
 
         if !cfg.nul && i == 0 {
             // Without the leading NUL the conversation must not succeed; everything else a server
